@@ -198,13 +198,13 @@ Definition coden (fl : list bool) (k : nat) : nat := length (filter (fun b : boo
 Lemma code_of_nat : forall fl k, code_of fl (Z.of_nat k) = Z.of_nat (coden fl k).
 Proof. intros. unfold code_of, coden, len. rewrite Nat2Z.id. reflexivity. Qed.
 
-Lemma coden_size : forall f g k d, (k < length g)%nat -> keeps f (nth k g d) = true ->
+Lemma coden_size : forall (f : chrom -> bool) g k d, (k < length g)%nat -> f (nth k g d) = true ->
   nth (coden (incl_flags f g) k) (ctx_sizes f g) 0 = c_size (nth k g d).
 Proof.
   intros f. induction g as [|x g IH]; intros k d Hk Hkeep; [simpl in Hk; lia|].
   unfold coden, incl_flags, ctx_sizes in *. destruct k as [|k].
   - cbn [nth] in Hkeep. cbn [firstn filter length map]. cbn [filter]. rewrite Hkeep. reflexivity.
-  - cbn [nth] in *. simpl in Hk. cbn [map firstn filter]. destruct (keeps f x).
+  - cbn [nth] in *. simpl in Hk. cbn [map firstn filter]. destruct (f x).
     + cbn [length map nth]. apply IH; [lia|assumption].
     + apply IH; [lia|assumption].
 Qed.
@@ -225,32 +225,32 @@ Proof.
   - cbn [nth] in H. subst b. cbn. lia.
   - cbn [nth] in H. cbn [firstn filter]. destruct b; cbn [length]; specialize (IH k H); lia.
 Qed.
-Lemma ctx_sizes_length : forall f g, length (ctx_sizes f g) = length (filter (fun b : bool => b) (incl_flags f g)).
+Lemma ctx_sizes_length : forall (f : chrom -> bool) g, length (ctx_sizes f g) = length (filter (fun b : bool => b) (incl_flags f g)).
 Proof.
   intros f. induction g as [|x g IH]; [reflexivity|]. unfold ctx_sizes, incl_flags in *. cbn [filter map].
-  destruct (keeps f x); cbn [length map filter]; lia.
+  destruct (f x); cbn [length map filter]; lia.
 Qed.
 
 (* mask_data: exactly the entries of included chromosomes survive, in their order; each is re-coded to the rank of its
    chromosome among the included ones, and under that code it is measured against its own chromosome's size *)
-Theorem visible_spec : forall f g es d, let fl := incl_flags f g in
+Theorem visible_spec : forall (f : chrom -> bool) g es d, let fl := incl_flags f g in
   visible fl es = map (fun e => set_chr e (code_of fl (e_chr e))) (filter (fun e => nthd false fl (e_chr e)) es)
-  /\ (forall k, 0 <= k < len g -> keeps f (nthd d g k) = true ->
+  /\ (forall k, 0 <= k < len g -> f (nthd d g k) = true ->
         size_of (ctx_sizes f g) (code_of fl k) = c_size (nthd d g k)
         /\ uncode fl (code_of fl k) = k
         /\ 0 <= code_of fl k < len (ctx_sizes f g))
-  /\ (forall k, keeps f (nthd d g k) = false -> 0 <= k < len g -> nthd false fl k = false).
+  /\ (forall k, f (nthd d g k) = false -> 0 <= k < len g -> nthd false fl k = false).
 Proof.
   intros f g es d fl. split; [reflexivity|]. split.
   - intros k Hk Hkeep. unfold len in Hk. set (n := Z.to_nat k). assert (Hn : k = Z.of_nat n) by lia.
     unfold nthd in Hkeep. fold n in Hkeep. rewrite Hn. rewrite code_of_nat.
     assert (Hfl : nth n fl false = true).
-    { unfold fl, incl_flags. rewrite (nth_indep _ false (keeps f d)) by (rewrite map_length; lia).
+    { unfold fl, incl_flags. rewrite (nth_indep _ false (f d)) by (rewrite map_length; lia).
       rewrite map_nth. exact Hkeep. }
     split; [|split].
     + unfold size_of, nthZ, nthd. rewrite !Nat2Z.id. apply coden_size; [lia|assumption].
     + unfold uncode, incl_idx, flatnonzero, nthZ. rewrite Nat2Z.id. rewrite coden_uncode by assumption. lia.
     + unfold len. rewrite ctx_sizes_length. pose proof (coden_lt fl n Hfl). fold fl. lia.
   - intros k Hkeep Hk. unfold nthd in *. unfold fl, incl_flags. unfold len in Hk.
-    rewrite (nth_indep _ false (keeps f d)) by (rewrite map_length; lia). rewrite map_nth. exact Hkeep.
+    rewrite (nth_indep _ false (f d)) by (rewrite map_length; lia). rewrite map_nth. exact Hkeep.
 Qed.
